@@ -106,6 +106,9 @@ func cliResetFlags() {
 	}
 }
 
+// cliPreRun, when set, runs after the flag values were restored and before the command line is executed.
+var cliPreRun func()
+
 func cliForget(fs *pflag.FlagSet) {
 	v := reflect.ValueOf(fs).Elem()
 	for _, name := range []string{"actual", "orderedActual"} {
@@ -135,6 +138,9 @@ func cliBody(args []string, stdin string, files map[string]string, outFiles []st
 	return func() {
 		*res = cliRun{Files: map[string]string{}}
 		dir := cliDir
+		if err := os.MkdirAll(dir, 0o755); err != nil { // an earlier family of the same worker may have removed it
+			panic(err)
+		}
 		// clean the directory
 		ents, _ := os.ReadDir(dir)
 		for _, e := range ents {
@@ -179,6 +185,9 @@ func cliBody(args []string, stdin string, files map[string]string, outFiles []st
 			a[i] = strings.ReplaceAll(s, "@/", dir+"/")
 		}
 		cliResetFlags()
+		if cliPreRun != nil {
+			cliPreRun()
+		}
 		cmd.RootCmd.SetArgs(a)
 		if err := cmd.RootCmd.Execute(); err != nil {
 			res.Err = err.Error()
